@@ -97,6 +97,10 @@ func c17Passwords(rng *rand.Rand, n int) []string {
 	}
 	var out []string
 	for _, p := range pws {
+		// zxcvbn's matching is super-linear in the password length: keep the corpus at realistic lengths
+		if len(p) > 48 {
+			p = p[:48]
+		}
 		if p != "" && !strings.ContainsAny(p, "\x00") {
 			out = append(out, p)
 		}
@@ -232,6 +236,9 @@ func c17Paths(R *vr.Result, rng *rand.Rand, id string, c c17CondStr) {
 			if strings.HasPrefix(path, "http") && !utf8.ValidString(pw) {
 				path = "iface-" + map[bool]string{true: "add", false: "update"}[strings.Contains(path, "add")] // JSON cannot carry invalid UTF-8
 			}
+			if (path == "http-update-own-session" || path == "http-update-oldpw") && !utf8.ValidString(cur[user]) {
+				path = "iface-update" // the current password (needed for the login / as old password) cannot travel in JSON
+			}
 			want := c.Cond.Pass(pw, user)
 			target := user
 			if strings.Contains(path, "add") {
@@ -240,6 +247,7 @@ func c17Paths(R *vr.Result, rng *rand.Rand, id string, c c17CondStr) {
 			}
 			before := ref.TakeSnap(w.st.Base)
 			var ok bool
+			debug := ""
 			switch path {
 			case "iface-add":
 				ok = w.iface.Add(target, pw, false) == nil
@@ -252,10 +260,11 @@ func c17Paths(R *vr.Result, rng *rand.Rand, id string, c c17CondStr) {
 				code, _ := w.post("/api/update", map[string]any{"session": rootSess, "username": target, "newpassword": pw})
 				ok = code == 200
 			case "http-update-own-session":
-				_, m := w.post("/api/authenticate", map[string]any{"username": target, "password": cur[target]})
+				lc, m := w.post("/api/authenticate", map[string]any{"username": target, "password": cur[target]})
 				s, _ := m["session"].(string)
-				code, _ := w.post("/api/update", map[string]any{"session": s, "username": target, "newpassword": pw})
+				code, um := w.post("/api/update", map[string]any{"session": s, "username": target, "newpassword": pw})
 				ok = code == 200
+				debug = fmt.Sprintf("login with current password %s -> %d; update -> %d %v", vr.Q(cur[target]), lc, code, um)
 			case "http-update-oldpw":
 				code, _ := w.post("/api/update", map[string]any{"username": target, "oldpassword": cur[target], "newpassword": pw})
 				ok = code == 200
@@ -268,7 +277,7 @@ func c17Paths(R *vr.Result, rng *rand.Rand, id string, c c17CondStr) {
 			} else {
 				R.Count("policy_fail", 1)
 			}
-			wit := map[string]any{"path": path, "condition": c.Text, "password": vr.Q(pw), "user": user, "reference_passes": want, "stored": ok, "diff": diff}
+			wit := map[string]any{"path": path, "condition": c.Text, "password": vr.Q(pw), "user": user, "reference_passes": want, "stored": ok, "diff": diff, "debug": debug}
 			if ok && !want {
 				R.Violate("c17:failing-password-stored:"+path+":"+c.Cond.Kind, fmt.Sprintf("password %s fails '%s' for user %s but was stored through %s", vr.Q(pw), c.Text, user, path), id, wit)
 			}
